@@ -64,26 +64,26 @@ def gen_spf(g):
                         ('spfSoftfail', 'SPF_SOFTFAIL'), ('spfFail', 'SPF_FAIL'), ('spfPermerror', 'SPF_PERMERROR'),
                         ('spfTemperror', 'SPF_TEMPERROR'), ('spfDnsHardError', 'SPF_DNS_HARD_ERROR'), ('spfIgnore', 'SPF_IGNORE')]:
         add(lean, _enum(g, 'include/qsmtpd/antispam.h', cname), 'enum spf_eval_result: ' + cname)
-    add('mxPriorityImplicit', _enum(g, 'include/qdns.h', 'MX_PRIORITY_IMPLICIT'), 'enum mx_special_priorities')
-    add('domainnameMax', c('lib/dns_helpers.c', 'domainvalid', r'\(h - host\) > (\d+)', 'max name length'), 'domainvalid: (h - host) > N')
+    add('spfMxPriorityImplicit', _enum(g, 'include/qdns.h', 'MX_PRIORITY_IMPLICIT'), 'enum mx_special_priorities')
+    add('spfDomainvalidMaxLen', c('lib/dns_helpers.c', 'domainvalid', r'\(h - host\) > (\d+)', 'max name length'), 'domainvalid: (h - host) > N')
     add('spfMaxDnsTerms', c(F, 'spf_dnsterm_allowed', r'\*queries <= (\d+)', 'term limit'),
         'spf_dnsterm_allowed: *queries <= N after the increment')
     add('spfLoopLimit', c(F, 'spflookup', r'\*queries > (\d+)', 'loop/include limit test', count_min=2),
         'spflookup: *queries > N (top of the term loop and include result mapping; all equal)')
     add('spfMxLimit', c(F, 'spfmx', r'if \(i > (\d+)\)', 'mx limit'), 'spfmx: if (i > N)')
     add('spfMxCountStart', c(F, 'spfmx', r'\n\ti = (\d+);\n\tstruct ips \*cur = mx;', 'mx count start'), 'spfmx: i = N before counting the MX entries')
-    add('validateDomainMax', c(F, 'validate_domain', r'if \(r > (\d+)\)\s*\n\s*r = \1;', 'ptr name limit'), 'validate_domain: if (r > N) r = N')
-    add('txtlookupMax', c(F, 'txtlookup', r'len - offs > (\d+)', 'txtlookup length'), 'txtlookup: while (len - offs > N)')
-    add('ip4CidrMin', c(F, 'spfip4', r'\(u < (\d+)\)', 'ip4 cidr min'), 'spfip4: u < N')
-    add('ip4CidrMax', c(F, 'spfip4', r'\(u > (\d+)\)', 'ip4 cidr max'), 'spfip4: u > N')
-    add('ip4LenMin', c(F, 'spfip4', r'ip4len < (\d+)', 'ip4 literal min'), 'spfip4: ip4len < N')
-    add('ip6CidrMin', c(F, 'spfip6', r'\(u < (\d+)\)', 'ip6 cidr min'), 'spfip6: u < N')
-    add('ip6CidrMax', c(F, 'spfip6', r'\(u > (\d+)\)', 'ip6 cidr max'), 'spfip6: u > N')
-    add('ip6LenMin', c(F, 'spfip6', r'ip6len < (\d+)', 'ip6 literal min'), 'spfip6: ip6len < N')
-    add('dsIp4CidrMax', c(F, 'spf_domainspec', r'\*ip4cidr > (\d+)', 'domainspec ip4 cidr'), 'spf_domainspec: *ip4cidr > N')
-    add('dsIp6CidrMax', c(F, 'spf_domainspec', r'\*ip6cidr > (\d+)', 'domainspec ip6 cidr'), 'spf_domainspec: *ip6cidr > N')
-    add('makroNumDefault', c(F, 'spf_makroparam', r'\} else \{\s*\*num = (\d+);', 'default DIGIT'), 'spf_makroparam: *num = N when no DIGIT is given')
-    add('makroNumCap', c(F, 'spf_makroparam', r'if \(\*num < (\d+)\)', 'DIGIT cap'), 'spf_makroparam: digits are only accumulated while *num < N')
+    add('spfValidateDomainMax', c(F, 'validate_domain', r'if \(r > (\d+)\)\s*\n\s*r = \1;', 'ptr name limit'), 'validate_domain: if (r > N) r = N')
+    add('spfTxtlookupMax', c(F, 'txtlookup', r'len - offs > (\d+)', 'txtlookup length'), 'txtlookup: while (len - offs > N)')
+    add('spfIp4CidrMin', c(F, 'spfip4', r'\(u < (\d+)\)', 'ip4 cidr min'), 'spfip4: u < N')
+    add('spfIp4CidrMax', c(F, 'spfip4', r'\(u > (\d+)\)', 'ip4 cidr max'), 'spfip4: u > N')
+    add('spfIp4LenMin', c(F, 'spfip4', r'ip4len < (\d+)', 'ip4 literal min'), 'spfip4: ip4len < N')
+    add('spfIp6CidrMin', c(F, 'spfip6', r'\(u < (\d+)\)', 'ip6 cidr min'), 'spfip6: u < N')
+    add('spfIp6CidrMax', c(F, 'spfip6', r'\(u > (\d+)\)', 'ip6 cidr max'), 'spfip6: u > N')
+    add('spfIp6LenMin', c(F, 'spfip6', r'ip6len < (\d+)', 'ip6 literal min'), 'spfip6: ip6len < N')
+    add('spfDsIp4CidrMax', c(F, 'spf_domainspec', r'\*ip4cidr > (\d+)', 'domainspec ip4 cidr'), 'spf_domainspec: *ip4cidr > N')
+    add('spfDsIp6CidrMax', c(F, 'spf_domainspec', r'\*ip6cidr > (\d+)', 'domainspec ip6 cidr'), 'spf_domainspec: *ip6cidr > N')
+    add('spfMakroNumDefault', c(F, 'spf_makroparam', r'\} else \{\s*\*num = (\d+);', 'default DIGIT'), 'spf_makroparam: *num = N when no DIGIT is given')
+    add('spfMakroNumCap', c(F, 'spf_makroparam', r'if \(\*num < (\d+)\)', 'DIGIT cap'), 'spf_makroparam: digits are only accumulated while *num < N')
     t = g.text(F) or ''
     m = re.search(r'static const char spf_delimiters\[\] = "((?:[^"\\]|\\.)*)";', t)
     if not m:
